@@ -353,9 +353,7 @@ def rule_jitmask_x86(ctx, R):
     want = {frozenset([('cond<%d' % slc_, True), ('mem', True)]): 'L1', frozenset([('cond<%d' % slc_, True), ('mem', False)]): 'L2', frozenset([('cond<%d' % slc_, False)]): 'L3'}
     R.check(tab == want, 'genAddressRegDst mask', '%s:%d' % (f['file'], f['line']), expected='getModCond() < 14 ? (mod.mem ? L1 : L2) : L3', found=sorted((sorted(k), v) for k, v in tab.items()))
     f = F.func('randomx::JitCompilerX86::genAddressImm')
-    e32 = [c for c in calls(f['body']) if c.get('name') == 'emit32']
-    oki = len(e32) == 1 and strip_all(e32[0]['a'][0])['k'] == 'Bin' and strip_all(e32[0]['a'][0])['op'] == '&' and val(strip_all(e32[0]['a'][0])['r']) == mk['L3'] and 'getImm32' in show(strip_all(e32[0]['a'][0])['l'])
-    R.check(oki, 'genAddressImm mask', '%s:%d' % (f['file'], f['line']), expected='emit32(imm32 & L3Mask)', found=[showv(c['a'][0]) for c in e32])
+    # (that the constant address of the src == dst form is imm32 & L3 mask, however it is encoded, is decided on the emitted bytes by X86-MEM-HSEM)
     # which helper each handler uses on which arm
     I = None
     for name, h in sorted(hs.items()):
